@@ -43,6 +43,17 @@ def find_replay(mod, obligation):
     for pref, script, mode, params in getattr(mod, "REPLAY", []):
         if obligation.startswith(pref) and (best is None or len(pref) > len(best[0])):
             best = (pref, script, mode, params)
+    own = getattr(mod, "__name__", "").split(".")[-1]
+    if (best is None or not obligation.startswith(own)) and len(obligation) > 3 and obligation[:3] != own:
+        # an obligation shared from another property's module: that module knows best how to replay it
+        try:
+            import importlib
+            src = importlib.import_module("props." + obligation[:3])
+            for pref, script, mode, params in getattr(src, "REPLAY", []):
+                if obligation.startswith(pref) and pref.startswith(obligation[:3]) and (best is None or len(pref) > len(best[0])):
+                    best = (pref, script, mode, params)
+        except Exception:
+            pass
     return best
 
 
